@@ -363,6 +363,12 @@ func (e *Engine) RunWorkload(wl *Workload) {
 			res = drv.Apply(s.w, op)
 		} else {
 			res = drv.ApplyNoWait(s.w, op)
+			// the rotation this op may have queued reaches the gate asynchronously: wait for it, or
+			// the golden run (and with it the whole exploration of this workload) depends on timing
+			sw := s.w
+			if !gate.Settle(func() (int64, int64, int64) { return hooks.Rotations(sw) }, drv.Watchdog) {
+				res.Quiesced = false
+			}
 			if gate.Holding() && rng.Intn(2) == 0 {
 				gate.Release()
 				res.Quiesced = hooks.WaitRotation(s.w, drv.Watchdog)
@@ -641,7 +647,12 @@ func (e *Engine) checkRecovery(wl *Workload, pt *Point, v simfs.Variant, img *si
 	// continuation (C03): the recovered WAL must be fully usable
 	l := match.Clone()
 	rs.base.Store(l)
-	if f := e.continuation(wl, s, l, pt, rng, depth); f != nil {
+	f, side := e.continuation(wl, s, l, pt, rng, depth)
+	if side != nil {
+		side.desc = fmt.Sprintf("continuation after crash at %s (%s, variant %s, in-flight %s): %s", pt.Call, pt.Phase, v.Name, opString(pt.InFlight), side.desc)
+		e.report(side, replay(nil))
+	}
+	if f != nil {
 		f.desc = fmt.Sprintf("continuation after crash at %s (%s, variant %s, in-flight %s): %s", pt.Call, pt.Phase, v.Name, opString(pt.InFlight), f.desc)
 		e.report(f, replay(nil))
 		return
@@ -714,7 +725,12 @@ func (e *Engine) usabilityProbe(s *session, obs *model.Obs) *failure {
 
 // continuation drives the recovered WAL through appends (forcing a rotation in
 // small geometries), reads, truncations, a stable write and a clean reopen.
-func (e *Engine) continuation(wl *Workload, s *session, l *model.Log, pt *Point, rng *rand.Rand, depth int) *failure {
+func (e *Engine) continuation(wl *Workload, s *session, l *model.Log, pt *Point, rng *rand.Rand, depth int) (main *failure, side *failure) {
+	defer func() {
+		if main == nil && side != nil {
+			main, side = side, nil
+		}
+	}()
 	rs := s.rs
 	rs.phase.Store("cont")
 	batch := 100000 * depth
@@ -786,7 +802,7 @@ func (e *Engine) continuation(wl *Workload, s *session, l *model.Log, pt *Point,
 		cands := []*model.Log{l}
 		rs.outer.Store(&cands)
 		if err := s.open(); err != nil {
-			return &failure{props: []string{"C03", "C01", "C02", "C04"}, class: "cont-reopen-right-after-recovery:" + errClass(err), desc: "clean reopen right after recovery failed: " + err.Error()}
+			return &failure{props: []string{"C03", "C01", "C02", "C04"}, class: "cont-reopen-right-after-recovery:" + errClass(err), desc: "clean reopen right after recovery failed: " + err.Error()}, side
 		}
 		rs.base.Store(l)
 		rs.phase.Store("cont")
@@ -794,7 +810,7 @@ func (e *Engine) continuation(wl *Workload, s *session, l *model.Log, pt *Point,
 			if rs.hadTrunc.Load() {
 				f.props = append(f.props, "C04")
 			}
-			return f
+			return f, side
 		}
 		e.C.Count("clean_reopens_right_after_recovery", 1)
 	}
@@ -822,12 +838,12 @@ func (e *Engine) continuation(wl *Workload, s *session, l *model.Log, pt *Point,
 		f := step(gen.Op{Kind: "append", Logs: logs})
 		rs.phase.Store("cont")
 		if f != nil {
-			return f
+			return f, side
 		}
 		e.C.Count("retry_prefix_continuations", 1)
 		next = l.Last + 1
 		if f := compare("after retry of torn batch"); f != nil {
-			return f
+			return f, side
 		}
 		// a clean reopen right here re-scans the tail with the stale frames behind it
 		rs.base.Store(l)
@@ -837,12 +853,12 @@ func (e *Engine) continuation(wl *Workload, s *session, l *model.Log, pt *Point,
 		cands := l.DropTrailingUnacked()
 		rs.outer.Store(&cands)
 		if err := s.open(); err != nil {
-			return &failure{props: []string{"C03", "C01", "C02"}, class: "cont-reopen-after-retry:" + errClass(err), desc: "clean reopen after retrying a torn batch failed: " + err.Error()}
+			return &failure{props: []string{"C03", "C01", "C02"}, class: "cont-reopen-after-retry:" + errClass(err), desc: "clean reopen after retrying a torn batch failed: " + err.Error()}, side
 		}
 		rs.base.Store(l)
 		rs.phase.Store("cont")
 		if f := compare("after reopen following retry of torn batch"); f != nil {
-			return f
+			return f, side
 		}
 	}
 	// the FIRST write after a recovery need not be an append: raft removes a conflicting suffix
@@ -852,30 +868,30 @@ func (e *Engine) continuation(wl *Workload, s *session, l *model.Log, pt *Point,
 	switch k := rng.Intn(12); {
 	case k == 0 && !l.Empty() && l.Last > l.First:
 		if f := step(gen.Op{Kind: "delete", Min: l.Last, Max: l.Last}); f != nil {
-			return f
+			return f, side
 		}
 		e.C.Count("first_write_after_recovery:tail-truncation", 1)
 	case k == 1 && !l.Empty() && l.Last-l.First >= 2:
 		if f := step(gen.Op{Kind: "delete", Min: l.Last - 1, Max: l.Last + 3}); f != nil {
-			return f
+			return f, side
 		}
 		e.C.Count("first_write_after_recovery:tail-truncation", 1)
 	case k == 2 && !l.Empty() && l.Last > l.First:
 		if f := step(gen.Op{Kind: "delete", Min: l.First, Max: l.First}); f != nil {
-			return f
+			return f, side
 		}
 		e.C.Count("first_write_after_recovery:head-truncation", 1)
 	case k == 3 && pt.InFlight != nil && pt.InFlight.Kind == "delete":
 		// the interrupted truncation itself, retried
 		if kind := l.ClassifyDelete(pt.InFlight.Min, pt.InFlight.Max); kind == model.DelHead || kind == model.DelTail {
 			if f := step(gen.Op{Kind: "delete", Min: pt.InFlight.Min, Max: pt.InFlight.Max}); f != nil {
-				return f
+				return f, side
 			}
 			e.C.Count("first_write_after_recovery:retried-truncation", 1)
 		}
 	case k == 4:
 		if f := step(gen.Op{Kind: "set", Key: []byte("first" + tag), Val: []byte("v")}); f != nil {
-			return f
+			return f, side
 		}
 		e.C.Count("first_write_after_recovery:stable-set", 1)
 	}
@@ -885,7 +901,7 @@ func (e *Engine) continuation(wl *Workload, s *session, l *model.Log, pt *Point,
 			if rs.hadTrunc.Load() {
 				f.props = append(f.props, "C04")
 			}
-			return f
+			return f, side
 		}
 	}
 	// enough appended bytes to fill the segment at least once for small geometries
@@ -902,35 +918,38 @@ func (e *Engine) continuation(wl *Workload, s *session, l *model.Log, pt *Point,
 			next++
 		}
 		if f := step(gen.Op{Kind: "append", Logs: logs}); f != nil {
-			return f
+			return f, side
 		}
 	}
 	if f := compare("after appends"); f != nil {
-		return f
+		return f, side
 	}
 	if l.Last-l.First >= 3 {
 		if f := step(gen.Op{Kind: "delete", Min: l.First, Max: l.First}); f != nil {
-			return f
+			return f, side
 		}
 		if f := step(gen.Op{Kind: "delete", Min: l.Last, Max: l.Last}); f != nil {
-			return f
+			return f, side
 		}
 		if f := compare("after truncations"); f != nil {
-			return f
+			return f, side
 		}
 		lg := gen.Entry(rng, l.Last+1, tag+"r", 10+rng.Intn(20))
 		if f := step(gen.Op{Kind: "append", Logs: []*raft.Log{lg}}); f != nil {
-			return f
+			return f, side
 		}
 	}
 	if f := step(gen.Op{Kind: "set", Key: []byte("k" + tag), Val: []byte("v" + tag)}); f != nil {
-		return f
+		return f, side
 	}
 	if v, err := s.w.Get([]byte("k" + tag)); err != nil || string(v) != "v"+tag {
-		return &failure{props: []string{"C03", "C08"}, class: "cont-stable-get", desc: fmt.Sprintf("Get after Set returned %q, %v", v, err)}
+		return &failure{props: []string{"C03", "C08"}, class: "cont-stable-get", desc: fmt.Sprintf("Get after Set returned %q, %v", v, err)}, side
 	}
 	if f := checkListing(s.disk); f != nil {
-		return f
+		// the listing is C13's statement. Do not stop here: what a missing or extra file
+		// means for C01/C03 (entries lost at the next Open, an Open that fails) only shows
+		// after the clean reopen below, and must be judged there by its own rule.
+		side = f
 	}
 	// clean reopen
 	rs.base.Store(l)
@@ -940,24 +959,24 @@ func (e *Engine) continuation(wl *Workload, s *session, l *model.Log, pt *Point,
 	cands := l.DropTrailingUnacked()
 	rs.outer.Store(&cands)
 	if err := s.open(); err != nil {
-		return &failure{props: []string{"C03", "C01"}, class: "cont-reopen:" + errClass(err), desc: "clean reopen failed: " + err.Error()}
+		return &failure{props: []string{"C03", "C01"}, class: "cont-reopen:" + errClass(err), desc: "clean reopen failed: " + err.Error()}, side
 	}
 	rs.base.Store(l)
 	rs.phase.Store("cont")
 	if f := compare("after clean reopen"); f != nil {
-		return f
+		return f, side
 	}
 	if v, err := s.w.Get([]byte("k" + tag)); err != nil || string(v) != "v"+tag {
-		return &failure{props: []string{"C03", "C08"}, class: "cont-stable-reopen", desc: fmt.Sprintf("Get after reopen returned %q, %v", v, err)}
+		return &failure{props: []string{"C03", "C08"}, class: "cont-stable-reopen", desc: fmt.Sprintf("Get after reopen returned %q, %v", v, err)}, side
 	}
 	lg := gen.Entry(rng, l.Last+1, tag+"z", 12)
 	if l.Empty() {
 		lg = gen.Entry(rng, 5, tag+"z", 12)
 	}
 	if f := step(gen.Op{Kind: "append", Logs: []*raft.Log{lg}}); f != nil {
-		return f
+		return f, side
 	}
-	return compare("at end")
+	return compare("at end"), side
 }
 
 func classifyMismatch(pt *Point, legal []*model.Log, obs *model.Obs) *failure {
